@@ -398,7 +398,7 @@ static std::vector<Fail> structural(const UDecl& d, const std::string& text)
             if (p + 1 >= syn.size() || syn[p + 1] == '-' || (p > 0 && (syn[p - 1] == '-' || isalnum(static_cast<unsigned char>(syn[p - 1])))))
                 continue;
             size_t e = p + 1;
-            while (e < syn.size() && isalnum(static_cast<unsigned char>(syn[e])))
+            while (e < syn.size() && syn[e] != ']' && syn[e] != ' ') // a short name is any single character
                 e++;
             if (syn.substr(p + 1, e - p - 1).find(letter) != std::string::npos)
                 return true;
@@ -443,7 +443,10 @@ static std::vector<Fail> structural(const UDecl& d, const std::string& text)
         size_t ind = l.find_first_not_of(' ');
         if (ind == std::string::npos)
             continue;
-        if (ind == 0 && l.back() == ':' && l.find(' ') == std::string::npos)
+        bool declared_group = false;
+        for (auto& g : group_order)
+            declared_group = declared_group || (!g.empty() && l == g + ":");
+        if (ind == 0 && l.back() == ':' && (l.find(' ') == std::string::npos || declared_group))
         {
             cur_group = l.substr(0, l.size() - 1);
             seen_groups.push_back(cur_group);
@@ -595,6 +598,24 @@ static std::vector<Fail> structural(const UDecl& d, const std::string& text)
                 units.back().end = i;
             else
                 units.push_back({ st, i });
+        }
+        // the head of an entry - its spellings `-x, --name` and the value placeholder behind them - is one unit: a line break
+        // between an option and its placeholder is not a layout the property asks for
+        if (!in_synopsis && units.size() >= 2 && l[units[0].begin] == '-')
+        {
+            size_t m = 1;
+            while (m < units.size() && l[units[m].begin] == '-')
+                m++;
+            if (m < units.size())
+            {
+                bool placeholder = true;
+                for (size_t c = units[m].begin; c < units[m].end; c++)
+                    placeholder = placeholder && (isupper(static_cast<unsigned char>(l[c])) || isdigit(static_cast<unsigned char>(l[c])) || l[c] == '_');
+                if (placeholder)
+                    m++;
+            }
+            units[0].end = units[m - 1].end;
+            units.erase(units.begin() + 1, units.begin() + m);
         }
         for (auto& u : units)
         {
@@ -810,11 +831,54 @@ int main(int argc, char** argv)
                     break;
             }
         }
+        // part C, sizes: many items in several groups, long descriptions made of many words, long names / defaults /
+        // environment names / metavars around the thresholds an implementation may have
+        for (int nitems : { 17, 40, 70 })
+            for (int ngroups : { 1, 3 })
+                for (size_t dlen : { 0u, 81u, 300u, 1000u })
+                {
+                    UDecl d;
+                    d.app = "prog";
+                    d.about = "about";
+                    const char* gs[] = { "", "output options", "debugging" };
+                    for (int i = 0; i < nitems; i++)
+                    {
+                        UItem it;
+                        it.kind = "omt"[i % 3];
+                        it.name = "item" + std::to_string(i) + (i % 5 == 0 ? std::string(20 + i, 'n') : "");
+                        std::string letters = "abcdefghijklmnopqrstuvwxyzABCDEFGHIJKLMNOPQRSTUVWXYZ0123456789#@+%:,.";
+                        if (i % 4 != 3)
+                            it.sh = std::string(1, letters[i % letters.size()]);
+                        it.group = gs[i % ngroups];
+                        if (i % 2)
+                            it.env = "VP_ENV_" + std::to_string(i) + (i % 6 == 1 ? std::string(30, 'E') : "");
+                        if (it.kind == 't')
+                        {
+                            it.tdef = i % 2;
+                            it.rev = i % 4 < 2;
+                        }
+                        else if (i % 3 != 2)
+                        {
+                            it.has_def = true;
+                            it.def = i % 7 == 0 ? std::string(60, 'd') : "d" + std::to_string(i);
+                            it.mdef = { "m" + std::to_string(i), std::string(1 + i % 20, 'q') };
+                            if (i % 2)
+                                it.metavar = "FILE" + std::to_string(i);
+                        }
+                        // a description of dlen characters: words of 1..12 characters
+                        std::string desc;
+                        for (size_t w = 0; desc.size() < dlen; w++)
+                            desc += (desc.empty() ? "" : " ") + std::string(1 + (w * 7 + i) % 12, static_cast<char>('a' + (w + i) % 26));
+                        it.desc = desc;
+                        d.items.push_back(it);
+                    }
+                    one(d);
+                }
     };
     auto rep = sh.run();
     rep.notes["rule"] = "part A: one item over the full product kind x name length x short x env x default x metavar/reversible x 11 "
                         "descriptions (words of 38..60 chars) x 2 application names x positionals; part B: 2-3 items over 6 variants x name "
-                        "permutations x group assignments x group pre-creation orders; each on 10 streams (incl. after a parse, after a parse that took values from the environment, from a moved parser); non-trivial = distinct "
+                        "permutations x group assignments x group pre-creation orders; part C: 17 / 40 / 70 items in 1 / 3 groups with descriptions of 0 / 81 / 300 / 1000 characters; each on 10 streams (incl. after a parse, after a parse that took values from the environment, from a moved parser); non-trivial = distinct "
                         "declarations with several items, a long name or a description that wraps";
     mc::write_out(a, rep);
     return 0;
